@@ -12,6 +12,7 @@ import CSD.Driver.Check
 import CSD.Driver.Chunks
 import CSD.Driver.FMCheck
 import CSD.Driver.RPFCCheck
+import CSD.Driver.BVLSCheck
 
 open CSD CSD.Driver
 
@@ -31,6 +32,7 @@ def runCase (c : Case) : IO Unit := do
   | "hhf" => runHhf c emit
   | "fm" => runFmStream c emit
   | "rpfc" => runRpfcStream c emit
+  | "bvls" => runBvlsStream c emit
   | _ => emit 1 s!"ERR unknown-stream {c.stream}"
 
 partial def loop (h : IO.FS.Stream) (cur : Option Case) : IO Unit := do
